@@ -6,7 +6,7 @@ PROP = dict(
     id="C10",
     corr=["Model/SvcCorr.vo", "Model/C09Corr.vo", "Model/C10Scid.vo"],
     design_ref="DESIGN.md §6 C10",
-    technique="Coq invariant (distinct active swaps have distinct normalised channel ids) proved by induction over all sequences of service operations, using a step-level frame lemma obtained from the generic engine rule; vm_compute correspondence of lockSwap/request handling against the real SwapService; monitor on observed nodes incl. one schedule-controlled interleaving; plus lightning.Scid.ClnStyle / LndStyle compared with the separator normalisation lockSwap relies on",
+    technique="Coq invariant (distinct active swaps have distinct normalised channel ids) proved by induction over all sequences of service operations, using a step-level frame lemma obtained from the generic engine rule; vm_compute correspondence of lockSwap/request handling against the real SwapService; monitor on observed nodes incl. one schedule-controlled interleaving; plus lightning.Scid.ClnStyle / LndStyle compared with the separator normalisation lockSwap relies on; plus, on the real lnd / clightning adapters: which spellings of a channel id SpendableMsat / ReceivableMsat resolve to the node's channel (psh scidres, Model/C10ScidRes.v; theorem c10_resolved_spelling_of_busy_channel_refused)",
     level_text="Machine-checked for every sequence of peer messages and RPC initiations (sequential semantics), every environment and table set: at most one active swap per channel in either spelling; a request for a busy channel is answered with cancel. The statement over ALL interleavings is kept in full, refuted (lock taken before the request is attached) and recorded as a known finding together with the request-before-recovery window; the spelling defect was repaired (fix: commit).",
     level_note="Trusted: Coq kernel, model of service.go tied by the svc correspondence, fakes. Partial: true concurrency is represented only by the two-caller lock interleaving (Coq witness + one schedule-controlled run on the real code); recovery of several stored swaps runs concurrently in the code and is not modelled.",
     assumptions=["handlers run to completion one after the other, except for the explicitly modelled lock/attach window"],
@@ -31,6 +31,19 @@ def run(ctx):
     svc_common.run_svc(ctx, "c10_monitor", "c10_clauses", classify,
                        lambda c: "two active swaps on one channel / busy-channel request not cancelled (clauses %s)" % sorted(set(c.get("_clauses") or [])))
     run_scid(ctx)
+    run_scidres(ctx)
+
+
+def run_scidres(ctx):
+    import vlib
+    d = ctx.harness("scidres", outdir=ctx.work + "/scidres", args=["-n", 6 if ctx.quick else 150])
+    if d is None:
+        return
+    res = vlib.eval_cases(d)
+    ctx.rules.append("scidres family: the real lnd.Client (fake lnrpc client) and the real ClightningClient (fake lightningd socket) are asked for SpendableMsat / ReceivableMsat of many spellings of the node's only channel (canonical, other separator, leading zeros, signs, blanks, extra / missing blocks, neighbouring channels, values that alias modulo 2^24 / 2^16); model: resolved iff equal after the separator normalisation; monitor: every resolved spelling is one lockSwap takes for that channel (theorem c10_resolved_spelling_of_busy_channel_refused)")
+    ctx.absorb(res, "scidres", signature=lambda c: "scidres:adapter-resolves-a-spelling-lockSwap-keeps-apart",
+               mismatch_is_violation=False,
+               describe=lambda c: "%s %s(%r) resolves to the node's channel %s although lockSwap does not take that spelling for this channel: a request naming a busy channel this way passes the look-up and the one-swap-per-channel guard" % (c.get("backend"), c.get("fn"), c.get("id"), c.get("node_channel")))
 
 
 def run_scid(ctx):
